@@ -306,6 +306,10 @@ func c09CheckData(msg *pb.Data, wire []byte) error {
 	if wantPerm >= 0 && perm != wantPerm {
 		return fmt.Errorf("Permissions() = %o, want %o for {%v}", perm, wantPerm, msg)
 	}
+	// the exported default rule, asked directly (it must not look at the mode)
+	if def, ok := c09DefaultMode[msg.GetType()]; ok && data.DefaultPermissions(d) != int(def) {
+		return fmt.Errorf("DefaultPermissions() = %o, want %o for {%v}", data.DefaultPermissions(d), def, msg)
+	}
 	// encode -> reference decode
 	enc := data.EncodeUnixFSData(d)
 	// the bytes handed out belong to the caller: encoding something else afterwards must not change them
@@ -478,6 +482,17 @@ func TestC09_P_MetadataTimeBuilder(t *testing.T) {
 			canon, _ := proto.Marshal(msg)
 			if !bytes.Equal(enc, canon) {
 				t.Fatalf("C09: metadata encoding %x, canonical %x", enc, canon)
+			}
+			// the appending form, onto a caller's buffer with content and little or much spare room: prefix kept, message after it
+			prefix := rapid.SliceOfN(rapid.Byte(), 0, 40).Draw(t, "appendPrefix")
+			buf := make([]byte, len(prefix), len(prefix)+rapid.SampledFrom([]int{0, 1, 2, len(canon), len(canon) + 1, 64}).Draw(t, "spare"))
+			copy(buf, prefix)
+			app := data.AppendEncodeUnixFSMetadata(buf, md)
+			if !bytes.Equal(app[:min(len(prefix), len(app))], prefix) || !bytes.Equal(app[min(len(prefix), len(app)):], canon) {
+				t.Fatalf("C09: AppendEncodeUnixFSMetadata onto %x gave %x, want the prefix followed by %x", prefix, app, canon)
+			}
+			if !bytes.Equal(enc, canon) {
+				t.Fatalf("C09: the bytes EncodeUnixFSMetadata returned changed after a later append-encode: %x, were %x", enc, canon)
 			}
 			ev.Case(fmt.Sprintf("metadata %v %v", msg.MimeType != nil, keys(flags)), len(flags) > 0, "kind:metadata")
 			ev.Sample(map[string]any{"kind": "metadata", "wire_hex": fmt.Sprintf("%x", wire)})
@@ -837,7 +852,6 @@ func TestC09_P_StrictParserAgrees(t *testing.T) {
 		ev.Sample(map[string]any{"wire_hex": fmt.Sprintf("%x", c.wire)})
 	})
 }
-
 
 // c09OtherNode is a small unrelated message encoded between uses of other encodings.
 var c09OtherNode = func() data.UnixFSData {
